@@ -2,6 +2,7 @@ package prog
 
 import (
 	"github.com/yorkie-team/yorkie/pkg/document"
+	"github.com/yorkie-team/yorkie/pkg/document/operations"
 )
 
 // Exclusions by construction for the open entries of /verif/known_findings.json.
@@ -59,5 +60,86 @@ func Chain(gs ...Guard) Guard {
 			}
 		}
 		return s, why
+	}
+}
+
+// GuardF6 — upstream-known and deliberately unfixed (docs/tasks/active/
+// 20260816-remote-redo-replica-divergence-todo.md): an undo/redo whose
+// reverse entry contains an Object.Set restores an element under its
+// original createdAt; a peer applying that Set remotely keeps the stale GC
+// registration of that identity and its next GC deletes the live key.
+func GuardF6(d *document.Document, s Step) (Step, string) {
+	var top []document.HistoryOperation
+	switch s.Op {
+	case "undo":
+		top = d.UndoStackTopForTest()
+	case "redo":
+		top = d.RedoStackTopForTest()
+	default:
+		return s, ""
+	}
+	for _, h := range top {
+		if _, ok := h.Op.(*operations.Set); ok {
+			return Step{}, "F6"
+		}
+	}
+	return s, ""
+}
+
+// Writers returns, per container ("t", "tr", "a", "o", "c"), the set of
+// clients that edit it anywhere in the program (valid for programs without
+// late attachers: Who resolves modulo the initial client count).
+func Writers(p Program) map[string]map[int]bool {
+	w := map[string]map[int]bool{}
+	add := func(c string, who int) {
+		if w[c] == nil {
+			w[c] = map[int]bool{}
+		}
+		w[c][who%p.Cfg.N] = true
+	}
+	for _, s := range append(append([]Step{}, p.Steps...), p.Tail...) {
+		switch s.Op {
+		case "tedit", "tstyle", "replText":
+			add("t", s.Who)
+		case "trtext", "trins", "trdel", "trstyle":
+			add("tr", s.Who)
+		case "aadd", "ains", "adel", "amove", "amovefront", "aset", "replArr":
+			add("a", s.Who)
+		}
+	}
+	return w
+}
+
+// GuardF10F11 — undo/redo of a text edit (F10) or tree edit (F11) diverges
+// when a peer edits the same text/tree concurrently (the reverse operation
+// restores or removes a range that the peers reconcile differently). The
+// trigger is excluded coarsely: an undo/redo whose reverse entry contains a
+// text Edit / TreeEdit is only executed in programs where that container has a
+// single writer.
+func GuardF10F11(p Program) Guard {
+	w := Writers(p)
+	return func(d *document.Document, s Step) (Step, string) {
+		var top []document.HistoryOperation
+		switch s.Op {
+		case "undo":
+			top = d.UndoStackTopForTest()
+		case "redo":
+			top = d.RedoStackTopForTest()
+		default:
+			return s, ""
+		}
+		for _, h := range top {
+			switch h.Op.(type) {
+			case *operations.Edit, *operations.Style:
+				if len(w["t"]) > 1 {
+					return Step{}, "F10"
+				}
+			case *operations.TreeEdit, *operations.TreeStyle:
+				if len(w["tr"]) > 1 {
+					return Step{}, "F11"
+				}
+			}
+		}
+		return s, ""
 	}
 }
